@@ -131,6 +131,12 @@ def _dead_state_shortcut(ctx, f, sx, st, cond, entry_t):
     True: exactly that (a state from which no final state is reachable has value 0 and so has every successor: all actions tie);
     False: the shortcut also covers final states (whose own value is 1 but whose successors can have any value) or lists
     something else than all actions; None: not in this shape."""
+    # `False if self.<result> is None else <test>`: "before the search has run nothing is short-cut" - on the path the rules judge
+    # (the strategies are taken after the search) it is <test>
+    if cond[0] == "ite" and len(cond) == 4 and cond[2] == FALSE and cond[1][0] == "cmp" and cond[1][1] in ("is", "==") and C(None) in (cond[1][2], cond[1][3]):
+        cond = cond[3]
+    elif cond[0] == "ite" and len(cond) == 4 and cond[3] == FALSE and cond[1][0] == "cmp" and cond[1][1] in ("isnot", "!=") and C(None) in (cond[1][2], cond[1][3]):
+        cond = cond[2]
     conj = list(cond[1]) if cond[0] == "and" else [cond]
     fin = [c for c in conj if c in (simp(("not", ("truthy", ("attr", st, "is_final_node")))), ("cmp", "==", ("attr", st, "is_final_node"), C(False)))]
     reach_f, _final_f = shared.solver_search_fields(ctx)
@@ -568,6 +574,7 @@ def r4_before_pruning(ctx, chk, rule="C04.4"):
 
 
 def run(ctx, chk):
+    shared.rule_no_keyed_collapse(ctx, chk, "C04.0:keyed", ("get_best_strategies_reachability", "get_worst_strategies_reachability"))      # parallel transitions are separate transitions
     # observed through the batch driver: run_games()[name]['reachability_strategies'] must be this game's, this mode's value
     from . import C12 as _C12
     _C12.observe(ctx, chk, "C04.obs", ['reachability_strategies'])
